@@ -625,8 +625,10 @@ class Randomizer(RandIF):
                 fm.accept(_TrimListsVisitor())
             raise
         
+        solved = False
         try:
             r.randomize(ri, bounds_v.bound_m)
+            solved = True
         finally:
             # Rollback any constraints we've replaced for arrays
             if solve_info is not None:
@@ -655,10 +657,20 @@ class Randomizer(RandIF):
             for f in [f for rs in ri.randsets() for f in rs.all_fields()] + list(ri.unconstrained()):
                 if hasattr(f.parent, "trim_to_size"):
                     f.parent.trim_to_size()
+            if not solved:
+                for fm in field_model_l:
+                    fm.set_used_rand(False, 0)
 
         visited = [] 
-        for fm in field_model_l:
-            fm.post_randomize(visited)
+        try:
+            for fm in field_model_l:
+                fm.post_randomize(visited)
+        finally:
+            # The call is over: nothing is being solved for any more. (A list 
+            # that stayed flagged would pass the flag on to an element appended 
+            # later, which a call that only refers to it would then overwrite)
+            for fm in field_model_l:
+                fm.set_used_rand(False, 0)
         
         
         # Process constraints to identify variable/constraint sets
